@@ -125,6 +125,7 @@ pub fn run_search<F: Flav>(w: &World<F>, root: K, cfg: &Cfg, pred: &Pred) -> Sea
     let mut log: Vec<PEdge> = vec![];
     let mut errs: Vec<String> = vec![];
     let mut cb_errs: Vec<String> = vec![];
+    watchdog::beat();
     let out = {
         let mut cb = |e: &F::Edge| -> bool {
             let p = pe::<F>(e);
@@ -348,42 +349,69 @@ fn check_target_search<F: Flav>(g: &GraphCase<F>, algo: Algo, root: K, target: K
 
 /// C06(i): expansion order read off the closure call log.
 fn check_pfs_order(m: &Model, prios: &[i32], root: K, max: bool, log: &[PEdge], pred: &Pred) -> Vec<String> {
+    use std::collections::BTreeMap;
     let mut v = vec![];
-    let mut discovered: Vec<K> = vec![root];
-    let mut expanded: Vec<K> = vec![];
+    let n = m.n;
+    let mut discovered = vec![false; n];
+    let mut expanded = vec![false; n];
+    // waiting = discovered, not yet expanded, has edges to expand; keyed by value
+    let mut waiting: BTreeMap<i32, Vec<K>> = BTreeMap::new();
+    let mut add_waiting = |waiting: &mut BTreeMap<i32, Vec<K>>, k: K| {
+        if !m.out[k as usize].is_empty() {
+            waiting.entry(prios[k as usize]).or_default().push(k);
+        }
+    };
+    discovered[root as usize] = true;
+    add_waiting(&mut waiting, root);
     let mut i = 0;
     while i < log.len() {
         let x = log[i].0;
-        // start of the block of x
-        if !discovered.contains(&x) {
+        if (x as usize) >= n {
+            v.push(format!("closure called with unknown source {}", x));
+            break;
+        }
+        if !discovered[x as usize] {
             v.push(format!("node {} is expanded before it was discovered", x));
         }
-        for &y in &discovered {
-            if y == x || expanded.contains(&y) || m.out[y as usize].is_empty() {
-                continue;
+        // x leaves the waiting set
+        let px = prios[x as usize];
+        if let Some(l) = waiting.get_mut(&px) {
+            if let Some(p) = l.iter().position(|k| *k == x) {
+                l.remove(p);
             }
-            let (py, px) = (prios[y as usize], prios[x as usize]);
-            if (!max && py < px) || (max && py > px) {
+            if l.is_empty() {
+                waiting.remove(&px);
+            }
+        }
+        let better = if max { waiting.iter().next_back() } else { waiting.iter().next() };
+        if let Some((py, ys)) = better {
+            if (!max && *py < px) || (max && *py > px) {
                 v.push(format!(
                     "starts expanding node {} (value {}) while discovered, unexpanded node {} (value {}) with edges is waiting [{}]",
                     x,
                     px,
-                    y,
+                    ys[0],
                     py,
                     if max { "max" } else { "min" }
                 ));
             }
         }
-        expanded.push(x);
+        expanded[x as usize] = true;
         let mut j = i;
         while j < log.len() && log[j].0 == x {
             let (s, d, e) = log[j];
-            if pred.accepts(s, d, e) && !discovered.contains(&d) {
-                discovered.push(d);
+            if (d as usize) < n && pred.accepts(s, d, e) && !discovered[d as usize] {
+                discovered[d as usize] = true;
+                if !expanded[d as usize] {
+                    add_waiting(&mut waiting, d);
+                }
             }
             j += 1;
         }
         i = j;
+        if v.len() > 4 {
+            break;
+        }
     }
     v
 }
@@ -585,6 +613,8 @@ pub struct EvalCtx<'a> {
     pub exhaustive: bool,
     pub rng: Rng,
     pub pairs_cap: usize,
+    /// nodes that sampled roots / targets are drawn from first (large structured graphs)
+    pub focus: Vec<K>,
 }
 
 fn viol<F: Flav>(rep: &mut Report, prop: &str, g: &GraphCase<F>, cfgs: &str, root: K, target: Option<K>, pred: &Pred, msgs: &[String]) {
@@ -600,6 +630,21 @@ fn viol<F: Flav>(rep: &mut Report, prop: &str, g: &GraphCase<F>, cfgs: &str, roo
 }
 
 fn roots_targets(n: usize, ctx: &mut EvalCtx) -> Vec<(K, K)> {
+    if !ctx.focus.is_empty() {
+        // large graph: root = first focus node, targets = other focus nodes + one random
+        let r = ctx.focus[0];
+        let mut v: Vec<(K, K)> = ctx.focus[1..].iter().filter(|t| **t != r).map(|t| (r, *t)).collect();
+        let t = ctx.rng.below(n) as K;
+        if t != r {
+            v.push((r, t));
+        }
+        let r2 = ctx.rng.below(n) as K;
+        let t2 = ctx.rng.below(n) as K;
+        if r2 != t2 {
+            v.push((r2, t2));
+        }
+        return v;
+    }
     let mut v = vec![];
     for r in 0..n as K {
         for t in 0..n as K {
@@ -616,6 +661,11 @@ fn roots_targets(n: usize, ctx: &mut EvalCtx) -> Vec<(K, K)> {
 }
 
 fn some_roots(n: usize, ctx: &mut EvalCtx) -> Vec<K> {
+    if !ctx.focus.is_empty() {
+        let mut v = vec![ctx.focus[0], ctx.rng.below(n) as K];
+        v.dedup();
+        return v;
+    }
     let mut v: Vec<K> = (0..n as K).collect();
     if v.len() > ctx.pairs_cap {
         ctx.rng.shuffle(&mut v);
@@ -691,7 +741,8 @@ pub fn eval_graph<F: Flav>(g: &GraphCase<F>, ctx: &mut EvalCtx, rep: &mut Report
                             viol(rep, "C06", g, &format!("{} expansion order", algo_name(algo)), r, None, p, &m);
                         }
                         // (ii) target search
-                        for t in 0..n as K {
+                        let targets: Vec<K> = if !ctx.focus.is_empty() { ctx.focus.clone() } else if n > 12 { (0..4).map(|_| ctx.rng.below(n) as K).collect() } else { (0..n as K).collect() };
+                        for t in targets {
                             if t == r {
                                 continue;
                             }
@@ -752,8 +803,9 @@ pub fn eval_graph<F: Flav>(g: &GraphCase<F>, ctx: &mut EvalCtx, rep: &mut Report
                     let a = acc(p);
                     let reach = g.m.reach(r, &a);
                     let mut all_cfgs: Vec<Cfg> = vec![];
+                    let targets: Vec<K> = if !ctx.focus.is_empty() { ctx.focus.clone() } else if n > 12 { (0..4).map(|_| ctx.rng.below(n) as K).collect() } else { (0..n as K).collect() };
                     for algo in [Algo::Bfs, Algo::Dfs, Algo::PfsMin, Algo::PfsMax] {
-                        for t in 0..n as K {
+                        for t in targets.iter().copied() {
                             if t != r {
                                 let mut c = Cfg::new(algo, Mode::Path);
                                 c.target = Some(t);
@@ -931,7 +983,16 @@ pub fn eval_c08<F: Flav>(prios: &[i32], edges: &[(K, K)], ctx: &mut EvalCtx, rep
     let n = g.w.n();
     let preds = preds_for(&g, &mut ctx.rng, ctx.exhaustive && edges.len() <= 3, true);
     for r in some_roots(n, ctx) {
-        for c in all_search_cfgs(n, r) {
+        let mut cfgs = all_search_cfgs(n, r);
+        if !ctx.focus.is_empty() {
+            // large graph: targets from the focus set only
+            let focus = ctx.focus.clone();
+            cfgs.retain(|c| c.target.map_or(true, |t| focus.contains(&t)));
+        } else if n > 12 {
+            let keep: Vec<K> = (0..4).map(|_| ctx.rng.below(n) as K).collect();
+            cfgs.retain(|c| c.target.map_or(true, |t| keep.contains(&t)));
+        }
+        for c in cfgs {
             for (pi, p) in preds.iter().enumerate() {
                 for meth in [Meth::Filter, Meth::ForEach] {
                     if meth == Meth::ForEach && pi != 0 {
@@ -1120,6 +1181,7 @@ pub fn run_enumeration<F: Flav>(rc: &SearchCfgRun, rep: &mut Report) {
         exhaustive: true,
         rng: Rng::new(rc.seed ^ 0xabcdef),
         pairs_cap: 64,
+        focus: vec![],
     };
     let mut done: HashSet<(usize, usize)> = HashSet::new();
     let mut gidx: u64 = 0;
@@ -1230,16 +1292,205 @@ pub fn random_graph(rng: &mut Rng) -> (usize, Vec<(K, K)>, &'static str) {
     (n, e, name)
 }
 
+/// Large structured graphs (hundreds to thousands of nodes): depth, width and
+/// tree-size regimes that small enumeration and 40-node random graphs never reach.
+pub fn large_graph(rng: &mut Rng) -> (usize, Vec<(K, K)>, &'static str) {
+    let mut e: Vec<(K, K)> = vec![];
+    let fam = rng.below(7);
+    let name;
+    let n;
+    // a small random gadget (cross / back / forward edges, dead ends) hung onto node `at`, using fresh nodes from `base`
+    fn gadget(rng: &mut Rng, e: &mut Vec<(K, K)>, at: K, base: K, back_to: K) -> K {
+        let g = 3 + rng.below(4) as K;
+        e.push((at, base));
+        for _ in 0..(g + 2 + rng.below(5) as K) {
+            let a = base + rng.below(g as usize) as K;
+            let b = base + rng.below(g as usize) as K;
+            e.push((a, b));
+        }
+        // a dead end first, then the way back (order matters for depth-first searches)
+        e.push((at, base + g));
+        if rng.chance(2, 3) {
+            e.push((base + rng.below(g as usize) as K, back_to));
+        }
+        if rng.chance(1, 2) {
+            e.push((at, back_to));
+        }
+        base + g + 1
+    }
+    match fam {
+        0 => {
+            name = "long-chain+gadget";
+            let l = 130 + rng.below(1300);
+            for i in 0..l {
+                e.push((i as K, i as K + 1));
+            }
+            n = gadget(rng, &mut e, l as K, l as K + 1, 0) as usize;
+        }
+        1 => {
+            name = "ring";
+            let l = 70 + rng.below(2600);
+            for i in 0..l {
+                e.push((i as K, ((i + 1) % l) as K));
+            }
+            for _ in 0..rng.below(4) {
+                e.push((rng.below(l) as K, rng.below(l) as K));
+            }
+            n = l;
+        }
+        2 => {
+            name = "grid";
+            let w = 8 + rng.below(33);
+            let h = 8 + rng.below(33);
+            for y in 0..h {
+                for x in 0..w {
+                    let v = (y * w + x) as K;
+                    if x + 1 < w {
+                        e.push((v, v + 1));
+                        if rng.chance(1, 2) {
+                            e.push((v + 1, v));
+                        }
+                    }
+                    if y + 1 < h {
+                        e.push((v, v + w as K));
+                        if rng.chance(1, 2) {
+                            e.push((v + w as K, v));
+                        }
+                    }
+                }
+            }
+            n = w * h;
+        }
+        3 => {
+            name = "wide-star+cycle";
+            // root 0 -> 1 -> 0 first, then many dead-end successors (large edge tree, cycle through the first edge)
+            let spokes = 60 + rng.below(200);
+            e.push((0, 1));
+            e.push((1, 0));
+            for i in 0..spokes {
+                e.push((0, 2 + i as K));
+                if rng.chance(1, 10) {
+                    e.push((2 + i as K, 1));
+                }
+            }
+            n = spokes + 2;
+        }
+        4 => {
+            name = "deep-tree+cross-edges";
+            let l = 260 + rng.below(300);
+            for i in 0..l {
+                e.push((i as K, i as K + 1));
+            }
+            // X -> a, X -> b, a -> b style gadgets below the deep path
+            let x = l as K;
+            let (a, b, d, f) = (x + 1, x + 2, x + 3, x + 4);
+            e.push((x, a));
+            e.push((x, b));
+            if rng.chance(1, 2) {
+                e.push((a, b));
+            } else {
+                e.push((a, d));
+                e.push((a, f));
+                e.push((d, b));
+            }
+            n = (x + 5) as usize;
+        }
+        5 => {
+            name = "corridor-with-loops";
+            let l = 20 + rng.below(60);
+            let mut next = l as K + 1;
+            for i in 0..l {
+                e.push((i as K, i as K + 1));
+                if rng.chance(1, 3) {
+                    // a loop through a fresh node back to i, inserted before or after the way forward
+                    let x = next;
+                    next += 1;
+                    if rng.chance(1, 2) {
+                        let last = e.pop().unwrap();
+                        e.push((i as K, x));
+                        e.push((x, i as K));
+                        e.push(last);
+                    } else {
+                        e.push((i as K, x));
+                        e.push((x, i as K));
+                    }
+                }
+            }
+            n = next as usize;
+        }
+        _ => {
+            name = "fan-with-sibling-chain";
+            // root -> 1..=f ; i -> i+1 (a longer, later way into every sibling) ; i -> private child f+i.
+            // Any node that a search forgets it has seen is re-entered through its sibling and its
+            // child is then reached by a non-shortest / repeated route.
+            let f = 20 + rng.below(130);
+            for i in 1..=f {
+                e.push((0, i as K));
+            }
+            for i in 1..f {
+                e.push((i as K, i as K + 1));
+            }
+            for i in 1..=f {
+                e.push((i as K, (f + i) as K));
+            }
+            n = 2 * f + 1;
+        }
+    }
+    (n, e, name)
+}
+
+pub fn run_large<F: Flav>(rc: &SearchCfgRun, rep: &mut Report, rng: &mut Rng, count: u64) {
+    let mut ctx = EvalCtx {
+        prop: &rc.prop,
+        exhaustive: false,
+        rng: rng.fork(),
+        pairs_cap: 3,
+        focus: vec![],
+    };
+    for gi in 0..count {
+        let (n, edges, fam) = large_graph(rng);
+        let prios: Vec<i32> = (0..n).map(|_| rng.below(7) as i32).collect();
+        rep.count("large_graphs");
+        rep.count(&format!("large_family.{}", fam));
+        crate::core::watchdog::tick(|| format!("{} large graph {} n={} edges={}", F::NAME, fam, n, edges.len()));
+        if gi == 0 {
+            rep.sample(json!({"large_graph":{"flavour":F::NAME,"family":fam,"nodes":n,"edges":edges.len()}}));
+        }
+        ctx.focus = vec![0, (n - 1) as K, (n / 2) as K];
+        if fam == "fan-with-sibling-chain" {
+            // many of the private children as targets
+            let f = (n - 1) / 2;
+            for _ in 0..24 {
+                ctx.focus.push((f + 1 + rng.below(f)) as K);
+            }
+        }
+        if rc.prop == "C08" {
+            eval_c08::<F>(&prios, &edges, &mut ctx, rep);
+        } else {
+            match build::<F>(&prios, &edges) {
+                Ok(g) => eval_graph::<F>(&g, &mut ctx, rep),
+                Err(e) => rep.inconclusive.push(format!("graph unobservable: {}", e)),
+            }
+        }
+        ctx.focus.clear();
+        if rep.total_violations() > 400 {
+            return;
+        }
+    }
+}
+
 pub fn run_random<F: Flav>(rc: &SearchCfgRun, rep: &mut Report, rng: &mut Rng) {
     let mut ctx = EvalCtx {
         prop: &rc.prop,
         exhaustive: false,
         rng: rng.fork(),
         pairs_cap: if matches!(rc.prop.as_str(), "C04" | "C05") { 20 } else { 5 },
+        focus: vec![],
     };
     for gi in 0..rc.random_graphs {
         let (n, edges, fam) = random_graph(rng);
-        let prios: Vec<i32> = (0..n).map(|_| rng.below(5) as i32).collect();
+        let wide = gi % 2 == 1;
+        let prios: Vec<i32> = (0..n).map(|_| if wide { rng.below(2001) as i32 - 1000 } else { rng.below(5) as i32 }).collect();
         rep.count("random_graphs");
         rep.count(&format!("random_family.{}", fam));
         if gi == 0 {
@@ -1273,6 +1524,7 @@ pub fn replay<F: Flav>(v: &serde_json::Value) -> bool {
         exhaustive: edges.len() <= 6,
         rng: Rng::new(1),
         pairs_cap: 2000,
+        focus: vec![],
     };
     if prop == "C08" {
         eval_c08::<F>(&prios, &edges, &mut ctx, &mut rep);
